@@ -168,14 +168,23 @@ def run_cli(argv, environ, cwd):
                            'cache_directory': _describe(ns.get('cache_directory')), 'password': _describe(ns.get('password')),
                            'key': _describe(ns.get('key')), 'settings': _describe(settings)}
                     try:
-                        b = M._instantiate_backend(backend_type, connection_string, ns)
-                        if hasattr(b, 'recorded'):
-                            kw = b.recorded
-                        else:
-                            kw = {k: getattr(b, k) for k in ('key_id', 'access_key', 'region', 'host', 'scheme', 'application_key')
-                                  if hasattr(b, k)}
-                            if hasattr(b, 'path'):
-                                kw['path'] = str(b.path)
+                        # what the constructor is called with (not what the adapter later makes of it)
+                        import functools
+                        seen = {}
+                        orig_init = backend_type.__init__
+
+                        @functools.wraps(orig_init)
+                        def recording_init(self, *a, **kw):
+                            seen['args'], seen['kwargs'] = a, dict(kw)
+                            return orig_init(self, *a, **kw)
+                        backend_type.__init__ = recording_init
+                        try:
+                            b = M._instantiate_backend(backend_type, connection_string, ns)
+                        finally:
+                            backend_type.__init__ = orig_init
+                        kw = dict(seen.get('kwargs', {}))
+                        if seen.get('args'):
+                            kw['connection_string'] = seen['args'][0]
                         obs['backend_kwargs'] = {k: _describe(v) for k, v in kw.items()}
                     except BaseException as e:
                         obs['backend_kwargs'] = {'!error': [type(e).__name__, str(e)[:200]]}
@@ -469,7 +478,7 @@ def _run(case, work):
             from replicat.utils import guess_type
             want = _describe(guess_type(text))
             got = ref['obs']['backend_kwargs'].get(option[8:])
-            if got is not None and got != want:
+            if got != want:      # an absent keyword means the value was not handed to the constructor at all
                 return Outcome(fail('coercion', f'option {option} = {text!r} reaches the backend constructor as {got}, expected {want}',
                                     option=option, text=text), classes, True)
         f = _companion_check(case, ref)
@@ -508,7 +517,7 @@ def _run(case, work):
         from replicat.utils import guess_type
         want = _describe(guess_type(texts[top]))
         got = a['obs']['backend_kwargs'].get(option[8:])
-        if got is not None and got != want:
+        if got != want:      # an absent keyword means the value was not handed to the constructor at all
             return Outcome(fail('coercion', f'option {option} = {texts[top]!r} (from {top}) reaches the backend constructor as {got}, '
                                 f'expected {want}', option=option, text=texts[top]), classes, nontrivial)
     f = _companion_check(case, a)
@@ -539,7 +548,7 @@ def _companion_check(case, res):
     else:
         want = ['int', str(int(native))]
     got = kw.get(comp['option'][8:])
-    if got is not None and got != want:
+    if got != want:      # an absent keyword means the value was not handed to the constructor at all
         return fail('coercion', f'option {comp["option"]} = {native} (native TOML value in the default section) reaches the backend '
                     f'constructor as {got}, expected {want}', option=comp['option'], text=text)
     return None
